@@ -198,6 +198,75 @@ def sym_env(fn):
     return env
 
 
+def walk(e):
+    stack = [e]
+    while stack:
+        n = stack.pop()
+        if isinstance(n, list):
+            stack.extend(n)
+        elif isinstance(n, dict):
+            if 'k' in n:
+                yield n
+            for key, v in n.items():
+                if isinstance(v, (dict, list)) and not key.startswith('_'):
+                    stack.append(v)
+
+
+def walk_through_locals(fn, e, depth=4, _seen=None):
+    """nodes of e, and of the initialisers of the `let`-bound locals e reads (a named sub-expression is the same test)"""
+    _seen = _seen if _seen is not None else set()
+    for n in walk(e):
+        yield n
+        if n['k'] == 'path' and n['res'].get('r') == 'local' and depth > 0:
+            h = n['res']['hid']
+            if h in _seen:
+                continue
+            _seen.add(h)
+            srcs = fn.binds.get(h, [])
+            if len(srcs) == 1 and srcs[0][0] == 'expr':
+                yield from walk_through_locals(fn, srcs[0][1], depth - 1, _seen)
+
+
+def deep_nodes(ctx, fn, e, depth=2, _seen=None, through_locals=False):
+    """nodes of expression e, plus the bodies of workspace fns called inside it (transitively, `depth` levels);
+    with through_locals also the initialisers / assigned values of the locals read.  yields (fn, node)."""
+    _seen = _seen if _seen is not None else set()
+    stack = [e]
+    while stack:
+        n = stack.pop()
+        if isinstance(n, list):
+            stack.extend(n)
+            continue
+        if not isinstance(n, dict):
+            continue
+        if 'k' in n:
+            yield fn, n
+            if through_locals and n['k'] == 'path' and n['res'].get('r') == 'local':
+                key_ = (fn.key, n['res']['hid'])
+                if key_ not in _seen:
+                    _seen.add(key_)
+                    for src in fn.binds.get(n['res']['hid'], []):
+                        s_ = src
+                        while s_[0] == 'proj':
+                            s_ = s_[1]
+                        if s_[0] in ('expr', 'assign'):
+                            stack.append(s_[1])
+                        elif s_[0] == 'mut':
+                            stack.append(s_[2])
+            if depth > 0 and n['k'] in ('call', 'mcall', 'path'):
+                cal = n.get('callee')
+                if n['k'] == 'path':
+                    r = n['res']
+                    cal = {'path': r['path'], 'resolved': n.get('resolved')} if r.get('r') == 'def' and r.get('dk') in ('Fn', 'AssocFn') else None
+                for lf in (ctx.pv.local_fns(cal) if cal else []):
+                    if lf.key not in _seen and not lf.from_macro:
+                        _seen.add(lf.key)
+                        yield from deep_nodes(ctx, lf, lf.body, depth - 1, _seen, through_locals)
+        for key, v in n.items():
+            if isinstance(v, (dict, list)) and not key.startswith('_'):
+                stack.append(v)
+
+
 class CallGraph:
     def __init__(self, prog, pv):
         self.prog = prog
